@@ -5,7 +5,9 @@
        compiles  the new program compiles
        same      the new program prints what the old one printed (and raises the same)
        pure      the selection is a pure expression evaluated exactly once per execution of its statement
-                 (always TRUE for the inline table rows)
+                 (always TRUE for the inline table rows), or a run of complete sibling statements of a function
+                 body that only (re)binds plain local names to pure expressions, possibly under if/for/while
+                 with pure tests (extract_function)
        isexpr    the selected range is exactly an expression of the program
        roundtrip extract_variable followed by inline of the new variable: "same" | "broken:.." |
                  "refused" | "internal:.." | "na"
